@@ -26,7 +26,7 @@ CHECKS['C05'] = dict(
    note=COMMON_NOTE, ref='DESIGN.md §5 C05')
 CHECKS['C14'] = dict(
    technique='Coq proof of the full invariant (Q^T Q = I, Q H Q^T = A, zeros below the subdiagonal) through every Householder step of the functional-matrix model + bit-for-bit correspondence + exact-rational residual oracle',
-   text='8 theorems in exact arithmetic for every n and every real matrix: reflector facts (tau v^T v = 2, symmetric, involutive, maps x to +-|x| e1), one-step invariant preservation including the zero-norm skip, c14_main (orthogonal similarity to Hessenberg form), trace and Frobenius norm preserved, n<=2 unchanged, non-square rejected; float instance agrees bit for bit with the Rust code on dense/sparse/scaled/zero-subcolumn matrices up to 10x10',
+   text='11 theorems in exact arithmetic for every n and every real matrix: c14_similarity (H = Q^T A Q, A Q = Q H), c14_symmetric_tridiagonal (symmetric input gives a symmetric tridiagonal H), c14_eigenpairs (eigenpairs of H are eigenpairs of A carried by Q), reflector facts (tau v^T v = 2, symmetric, involutive, maps x to +-|x| e1), one-step invariant preservation including the zero-norm skip, c14_main (orthogonal similarity to Hessenberg form), trace and Frobenius norm preserved, n<=2 unchanged, non-square rejected; float instance agrees bit for bit with the Rust code on dense/sparse/scaled/zero-subcolumn matrices up to 10x10',
    note=COMMON_NOTE, ref='DESIGN.md §5 C14')
 CHECKS['C20'] = dict(
    technique='Coq proof that both parsers are invariant under any re-spacing (all Unicode whitespace) and that the modelled expansion equals the runtime value under measured assumptions R1/R2 + compiler-in-the-loop differential check (generated crates expanded by rustc vs runtime parser vs extracted model)',
@@ -82,11 +82,11 @@ CHECKS['C17'] = dict(
 
 CHECKS['C09'] = dict(
    technique='Coq proof (right-looking invariant with the stored Schur complement: L U = P A, shapes, |l_ij| <= 1, pivots above the relative threshold; left/right null vectors are refused; Doolittle LU reconstructs A and errs exactly on a singular leading block) + bit-for-bit correspondence on all container types + exact determinant/minor oracle',
-   text='11 theorems in exact arithmetic for every n: c09_plu_shape, c09_plu_reconstruct, c09_plu_pivots (threshold n*eps*max|a| re-derived from the code), c09_plu_singular(_right), c09_lu_reconstruct, c09_lu_pivots, c09_lu_zero_minor(_right), c09_lu_err_iff_minor (full characterisation), c09_nonsquare; exhaustive 2x2/3x3 small-integer matrices (thorough: all 1.95M 3x3 with entries -2..2), random/permutation-heavy/scaled/rank-deficient up to 10x10',
-   note=COMMON_NOTE + '; the n*eps*|L||U| envelope, finiteness and must-factor are measured by the oracle; one known finding (F21: rounding residue lets some exactly singular -2..2 matrices of order >= 4 through)', ref='DESIGN.md §5 C09')
+   text='13 theorems: the binary64 backward-error theorem c09_lu_float_backward_error (Flocq: |L U - A| <= ((1+eps)^n - 1)|L||U| componentwise and all entries finite, for the executed float instance of lu when no step overflows or underflows, via c09_lu_recurrences which holds for every number type) and 11 in exact arithmetic for every n: c09_plu_shape, c09_plu_reconstruct, c09_plu_pivots (threshold n*eps*max|a| re-derived from the code), c09_plu_singular(_right), c09_lu_reconstruct, c09_lu_pivots, c09_lu_zero_minor(_right), c09_lu_err_iff_minor (full characterisation), c09_nonsquare; exhaustive 2x2/3x3 small-integer matrices (thorough: all 1.95M 3x3 with entries -2..2), random/permutation-heavy/scaled/rank-deficient up to 10x10',
+   note=COMMON_NOTE + '; the rounding envelope of PLU (LU: proved), and must-factor, are measured by the oracle; one known finding (F21: rounding residue lets some exactly singular -2..2 matrices of order >= 4 through)', ref='DESIGN.md §5 C09')
 CHECKS['C10'] = dict(
    technique='Coq proof (inverse on top of the PLU and substitution models: A B = I and B A = I whenever a value is returned; error cases; uniqueness form of the involution) + bit-for-bit correspondence + exact rational inverse oracle',
-   text='4 theorems: c10_right_left (both products are the identity, for every pivoting pattern incl. non-symmetric permutations), c10_errors (non-square, singular via null vectors, 0x0 is Ok, never a panic), c10_involutive_partial (if both inversions succeed the second returns A entrywise) with a proved counterexample showing the relative pivot threshold can refuse the second inversion; exhaustive small-integer 2x2/3x3, cyclic permutations, i32 and f64 elements, matrices scaled by 2^+-60',
+   text='7 theorems: c10_right_left (both products are the identity, for every pivoting pattern incl. non-symmetric permutations), c10_errors (non-square, singular via null vectors, 0x0 is Ok, never a panic), c10_involutive_partial (if both inversions succeed the second returns A entrywise) with a proved counterexample showing the relative pivot threshold can refuse the second inversion, c10_unique (any left or right inverse equals the returned matrix), c10_solves (B b is the one solution of A x = b; trivial kernel), c10_product (inverse of a product = reversed product of inverses); exhaustive small-integer 2x2/3x3, cyclic permutations, i32 and f64 elements, matrices scaled by 2^+-60',
    note=COMMON_NOTE + '; rounding-scaled residual bounds and the round trip for well-conditioned A are measured by the oracle; one known finding (F21)', ref='DESIGN.md §5 C10')
 
 CHECKS['C19'] = dict(
